@@ -178,7 +178,7 @@ class RestartWorld(object):
                              "message": "after print-started, op %r: used plugin produced %r, a fresh plugin with "
                                         "the same regions and settings produced %r (history state: active=%s "
                                         "excluding=%s enabled=%s retraction=%s pending=%s abs=%s unit=%s)"
-                                        % (op, ou[first] if first < len(ou) else None,
-                                           of[first] if first < len(of) else None) + hist[:7]}
+                                        % ((op, ou[first] if first < len(ou) else None,
+                                            of[first] if first < len(of) else None) + hist[:7])}
                 break
         return self.viol
